@@ -174,7 +174,8 @@ def cached_build_and_run(cfg, modules, keep_src):
             pass
     res = probe.build_and_run(cfg, modules, runner.REPO, runner.SCRATCH_ROOT, keep_src)
     os.makedirs(runner.CACHE, exist_ok=True)
-    tmp = key + '.tmp%d' % os.getpid()
+    import threading
+    tmp = key + '.tmp%d.%d' % (os.getpid(), threading.get_ident())
     with gzip.open(tmp, 'wb') as fh:
         pickle.dump(res, fh)
     os.replace(tmp, key)
